@@ -102,6 +102,10 @@ fn main() {
         #[cfg(feature = "compiler")]
         "astdump" => incan_verif_kani::tcreplay::ast_main(&args[2..]),
         #[cfg(feature = "compiler")]
+        "astdbg" => incan_verif_kani::tcreplay::astdbg_main(&args[2..]),
+        #[cfg(feature = "compiler")]
+        "fmtrt" => incan_verif_kani::tcreplay::fmtrt_main(&args[2..]),
+        #[cfg(feature = "compiler")]
         "emitrust" => incan_verif_kani::tcreplay::emit_main(&args[2..]),
         #[cfg(feature = "compiler")]
         "typecheck" => incan_verif_kani::tcreplay::main(&args[2..]),
